@@ -252,3 +252,148 @@ Proof.
   - eapply cur_elected; eauto.
   - apply cur_len; auto.
 Qed.
+
+(* ------------------------------------------------------------------ V4 is an invariant *)
+Theorem leff_V4 : forall n y y', leff n y y' -> LInv n y -> LInv2 y -> KInv y -> ZInv y -> V4 y -> V4 y'.
+Proof.
+  intros n y y' H I J K Z V u c2 t2 Hm.
+  pose proof (V4_old n y y' H I J K V) as OLD.
+  destruct H as [m s' sent' cast' el' x s He Hl Ht Hr1 Hr2 Hs Hel Hcm Hs2 Hcand Hmi Hincl
+                |m s' x s He Hc Hl Ht Hlog Hcm Hvs Hz Hmaj
+                |m s' sent' ext x s He Hr Hr' Ht Hlog Hext Hwf Hs Hcm Hmx Hse
+                |m s' o x s He Hr Hr' Ht Hlog Ho Hc1 Hmx Hrule Hlc
+                |m s' o f0 ldr pli plt es lc cmt x s He Hin Hr Hr' Ht Hm0 Ha0 Ho Hcmt Hcm Hoo
+                |m s' from lli llt x s He Hlog Ht Hr Hvs Hcm Hmx Hin Hpg
+                |m s' u0 x s He Hlog Ht Hr Hr' Hcm Hvs Hin
+                |m s' x s He Hlog Ht Hr Hr' Hcm Hvs]; cbn [y_x x_sent] in Hm.
+  - apply OLD. destruct (Hs2 _ _ _ Hm) as [Hi'|[_ [(t0 & mi & E)|(l & lt & E & _)]]]; auto; discriminate.
+  - apply OLD; auto.
+  - apply OLD. rewrite Hse in Hm. apply in_app_or in Hm. destruct Hm as [Hm|[]]; auto.
+  - apply OLD. apply in_app_or in Hm. destruct Hm as [Hm|Hm]; auto. apply tag_in in Hm. destruct Hm as [_ Hm].
+    destruct (Ho _ _ Hm) as (p0 & p1 & p2 & E & _). discriminate.
+  - apply OLD. subst o. apply in_app_or in Hm. destruct Hm as [Hm|Hm]; auto. apply tag_in in Hm.
+    destruct Hm as [_ [E|[]]]. discriminate.
+  - (* LGrant *)
+    apply in_app_or in Hm. destruct Hm as [Hm|Hm]; [apply OLD; auto|].
+    apply tag_in in Hm. destruct Hm as [-> [E|[]]]. inversion E; subst c2 t2; clear E.
+    exists lli, llt. split; [cbn [y_x x_sent]; apply in_or_app; left; exact Hin|].
+    intros t c Hc0 Lt Hcur Hh Hne Hb.
+    (* nothing relevant changed in this step: read the facts in the old state *)
+    assert (cur y t c /\ holds y m t c /\ between_ok y t (term s) c) as (A & B & C).
+    { unfold cur, holds, acked, between_ok in *. cbn [y_x y_gl x_st x_elected x_sent] in *. split; [exact Hcur|]. split; [|exact Hb].
+      destruct Hh as [Hh|(c' & (to & Hh) & Lc)]; [left; auto|right]. exists c'. split; auto. exists to.
+      apply in_app_or in Hh. destruct Hh as [Hh|Hh]; auto. apply tag_in in Hh. destruct Hh as [_ [E|[]]]. discriminate. }
+    cbn [y_x y_gl x_elected] in Hne |- *.
+    assert (pfx c (log s) (y_gl y t)) as P.
+    { apply Z; auto. intros t1 q1 L1 L2 E1. fold x in L2. fold s in L2.
+      destruct (N.eq_dec t1 (term s)) as [->|Hn1]; [exfalso; eapply Hne; eauto|].
+      apply (C t1 q1); auto. lia. }
+    eapply (uptodate n y m t (term s) c lli llt); eauto.
+    apply (kR2 _ K _ _ _ _ _ Hin).
+  - apply OLD; auto.
+  - apply OLD; auto.
+Qed.
+
+(* ------------------------------------------------------------------ V3 is an invariant *)
+Definition same_cand (s s' : rstate) : Prop :=
+  rrole s' = Candidate -> rrole s = Candidate /\ term s' = term s /\ votes s' = votes s /\ log s' = log s.
+
+Lemma V3_keep : forall n y y', leff n y y' -> LInv n y -> LInv2 y -> KInv y -> V3 y ->
+  forall c2, same_cand (x_st (y_x y) c2) (x_st (y_x y') c2) ->
+  rrole (x_st (y_x y') c2) = Candidate ->
+    (forall q, ~ In (term (x_st (y_x y') c2), q) (x_elected (y_x y'))) ->
+    forall u, In u (votes (x_st (y_x y') c2)) ->
+    forall t c, (0 < c)%nat -> t < term (x_st (y_x y') c2) -> cur y' t c -> holds y' u t c ->
+      between_ok y' t (term (x_st (y_x y') c2)) c -> pfx c (log (x_st (y_x y') c2)) (y_gl y' t).
+Proof.
+  intros n y y' H I J K V c2 SC R Hne u Hu t c Hc0 Lt Hcur Hh Hb.
+  destruct (SC R) as (R0 & T0 & V0 & L0). rewrite T0 in *. rewrite V0 in Hu. rewrite L0.
+  assert (rrole (x_st (y_x y) c2) <> Follower) as NF by congruence.
+  destruct (vote_term n y c2 u I NF Hu) as [Lu _].
+  destruct (ante_back n y y' H I J K u t _ c Lu Hc0 Lt Hcur Hh Hb) as (A & B & C).
+  assert (pfx c (log (x_st (y_x y) c2)) (y_gl y t)) as P.
+  { assert (forall q, ~ In (term (x_st (y_x y) c2), q) (x_elected (y_x y))) as NE
+      by (intros q Hq; apply (Hne q); eapply el_fwd; eauto).
+    exact (V c2 R0 NE u Hu t c Hc0 Lt A B C). }
+  destruct (cur_elected n y t c I A) as (qt & Eq).
+  unfold pfx in *. rewrite (gl_fwd n y y' H I t qt Eq c (cur_len _ _ _ Hc0 A)). exact P.
+Qed.
+
+Theorem leff_V3 : forall n y y', leff n y y' -> LInv n y -> LInv2 y -> KInv y -> ZInv y -> V4 y -> V3 y -> V3 y'.
+Proof.
+  intros n y y' H I J K Z V4y V c2 R Hne u Hu t c Hc0 Lt Hcur Hh Hb.
+  pose proof (V3_keep n y y' H I J K V c2) as KEEP.
+  destruct H as [m s' sent' cast' el' x s He Hl Ht Hr1 Hr2 Hs Hel Hcm Hs2 Hcand Hmi Hincl
+                |m s' x s He Hc Hl Ht Hlog Hcm Hvs Hz Hmaj
+                |m s' sent' ext x s He Hr Hr' Ht Hlog Hext Hwf Hs Hcm Hmx Hse
+                |m s' o x s He Hr Hr' Ht Hlog Ho Hc1 Hmx Hrule Hlc
+                |m s' o f0 ldr pli plt es lc cmt x s He Hin Hr Hr' Ht Hm0 Ha0 Ho Hcmt Hcm Hoo
+                |m s' from lli llt x s He Hlog Ht Hr Hvs Hcm Hmx Hin Hpg
+                |m s' u0 x s He Hlog Ht Hr Hr' Hcm Hvs Hin
+                |m s' x s He Hlog Ht Hr Hr' Hcm Hvs];
+    (destruct (N.eq_dec c2 m) as [->|Hnm];
+     [|refine (KEEP _ R Hne u Hu t c Hc0 Lt Hcur Hh Hb); cbn [y_x x_st]; rewrite updf_other by auto; intro R'; repeat split; auto]).
+  - (* LSame *) refine (KEEP _ R Hne u Hu t c Hc0 Lt Hcur Hh Hb). cbn [y_x x_st]. rewrite updf_same. intro R'. destruct (Hcand R') as (A & B & C). auto.
+  - (* LWin *) cbn [y_x x_st] in R. rewrite updf_same in R. congruence.
+  - cbn [y_x x_st] in R. rewrite updf_same in R. congruence.
+  - cbn [y_x x_st] in R. rewrite updf_same in R. congruence.
+  - cbn [y_x x_st] in R. rewrite updf_same in R. congruence.
+  - (* LGrant *) refine (KEEP _ R Hne u Hu t c Hc0 Lt Hcur Hh Hb). cbn [y_x x_st]. rewrite updf_same. intro R'. split; [fold x; fold s; rewrite <- Hr; exact R'|]. split; [exact Ht|]. split; [exact Hvs|exact Hlog].
+  - (* LVote *)
+    cbn [y_x y_gl x_st x_elected x_sent] in *. rewrite updf_same in *. rewrite Ht in *. rewrite Hlog.
+    unfold cur, holds, acked, between_ok in *. cbn [y_x y_gl x_st x_elected x_sent] in *.
+    rewrite Hvs in Hu. apply sins_In in Hu. destruct Hu as [->|Hu].
+    + (* the new vote *)
+      destruct (V4y u0 m (term s) Hin) as (lli & llt & HRV & HV).
+      pose proof (kR _ K _ _ _ _ _ HRV eq_refl Hr) as LL. fold x in LL. fold s in LL.
+      destruct (HV t c Hc0 Lt Hcur Hh Hne Hb) as [Lc Pg].
+      destruct (last_log_nth _ _ _ LL) as [(_ & _ & Z0)|(el & Hel & Tel & Iel & Pos)]; [lia|].
+      pose proof (wf_nth _ _ _ (l7 _ _ I m) Hel) as Wi. fold x in Wi. fold s in Wi.
+      pose proof (l2 _ _ I m _ _ Hel) as Q. fold x in Q. fold s in Q. rewrite Tel in Q.
+      eapply pfx_trans; [|exact Pg]. eapply pfx_le; [|exact Q]. lia.
+    + exact (V m Hr Hne u Hu t c Hc0 Lt Hcur Hh Hb).
+  - (* LCand *)
+    cbn [y_x y_gl x_st x_elected x_sent] in *. rewrite updf_same in *. rewrite Hlog.
+    unfold cur, holds, acked, between_ok in *. cbn [y_x y_gl x_st x_elected x_sent] in *.
+    rewrite Hvs in Hu. destruct Hu as [<-|[]].
+    apply Z; auto. intros t1 q1 L1 L2 E1. fold x in L2. fold s in L2. apply (Hb t1 q1); auto. lia.
+Qed.
+
+(* ------------------------------------------------------------------ VInvS is an invariant *)
+Theorem leff_VInvS : forall n y y', leff n y y' -> LInv n y -> LInv2 y -> KInv y -> V3 y -> VInvS n y -> VInvS n y'.
+Proof.
+  intros n y y' H I J K V3y VS t' c' Hel.
+  assert (forall t' c', In (t', c') (x_elected (y_x y)) ->
+    exists Q', isq n Q' /\ (forall u, In u Q' -> t' <= term (x_st (y_x y') u)) /\
+      forall u, In u Q' -> forall t c, t < t' -> (0 < c)%nat -> cur y' t c -> holds y' u t c ->
+        between_ok y' t t' c -> pfx c (y_gl y' t') (y_gl y' t)) as OLD.
+  { intros t0 c0 Hel0. destruct (VS t0 c0 Hel0) as (Q' & HQ & HT & HV). exists Q'. split; auto. split.
+    - intros u Hu. pose proof (HT u Hu). pose proof (term_fwd n y y' H u). lia.
+    - intros u Hu t c Lt Hc0 Hcur Hh Hb.
+      destruct (ante_back n y y' H I J K u t t0 c (HT u Hu) Hc0 Lt Hcur Hh Hb) as (A & B & C).
+      eapply pfx_gl_fwd; eauto; [eapply cur_elected; eauto|apply cur_len; auto]. }
+  pose proof (ante_back n y y' H I J K) as AB.
+  destruct H as [m s' sent' cast' el' x s He Hl Ht Hr1 Hr2 Hs Hel0 Hcm Hs2 Hcand Hmi Hincl
+                |m s' x s He Hc Hl Ht Hlog Hcm Hvs Hz Hmaj
+                |m s' sent' ext x s He Hr Hr' Ht Hlog Hext Hwf Hs Hcm Hmx Hse
+                |m s' o x s He Hr Hr' Ht Hlog Ho Hc1 Hmx Hrule Hlc
+                |m s' o f0 ldr pli plt es lc cmt x s He Hin Hr Hr' Ht Hm0 Ha0 Ho Hcmt Hcm Hoo
+                |m s' from lli llt x s He Hlog Ht Hr Hvs Hcm Hmx Hin Hpg
+                |m s' u0 x s He Hlog Ht Hr Hr' Hcm Hvs Hin
+                |m s' x s He Hlog Ht Hr Hr' Hcm Hvs]; cbn [y_x x_elected] in Hel;
+    try (apply (OLD t' c'); exact Hel; fail); try (apply (OLD t' c'); rewrite Hel0 in Hel; exact Hel; fail).
+  (* LWin: the new leader *)
+  apply in_app_or in Hel. destruct Hel as [Hel|[E|[]]]; [apply (OLD t' c'); auto|]. inversion E; subst t' c'; clear E.
+  pose proof (win_fresh n y m s' He Hc I) as F0. fold x in F0. fold s in F0.
+  assert (rrole s <> Follower) as NF by congruence.
+  exists (votes s). split; [|split].
+  - destruct (iD _ _ (lI _ _ I) m NF) as [ND _]. split; auto. split; auto.
+    intros q Hq. apply (vote_term n y m q I NF Hq).
+  - intros u Hu. destruct (vote_term n y m u I NF Hu) as [A _]. fold x in A. fold s in A.
+    cbn [y_x x_st]. destruct (N.eq_dec u m) as [->|Hn]; [rewrite updf_same; lia|rewrite updf_other by auto; auto].
+  - intros u Hu t c Lt Hc0 Hcur Hh Hb.
+    destruct (vote_term n y m u I NF Hu) as [Lu _]. fold x in Lu. fold s in Lu.
+    destruct (AB u t (term s) c Lu Hc0 Lt Hcur Hh Hb) as (A & B & C).
+    cbn [y_gl]. rewrite updf_same. rewrite (updf_other _ (y_gl y)) by lia.
+    apply (V3y m Hc F0 u Hu t c); auto.
+Qed.
